@@ -154,6 +154,11 @@ def one_case(src, idx, seed, tier, keep=False):
         name, opts, size = [c for c in corrupt.IMG_CONFIGS if c[0] == "ext4_itb46"][0]
         base = corrupt.build_image(src, WORK, name, opts, size, 1)
         desc = corrupt.corrupt(base, img, r, directed=[(corrupt.op_inode_csum_late, None)])
+    elif idx < nd + 4 + 2 * len(corrupt.PAIRS) + 4 + len(corrupt.ORPHAN_VARIANTS):
+        # the orphan file's own inode damaged: the end-of-run "recreate" must either work or be reported as left uncorrected
+        name, opts, size = [c for c in corrupt.IMG_CONFIGS if c[0] == "ext4_1k"][0]
+        base = corrupt.build_image(src, WORK, name, opts, size, 1)
+        desc = corrupt.corrupt(base, img, r, directed=[(corrupt.op_orphan_file, corrupt.ORPHAN_VARIANTS[idx - (nd + 4 + 2 * len(corrupt.PAIRS) + 4)])])
     else:
         desc = corrupt.corrupt(base, img, r)
     recipe = {"base": name, "mke2fs": opts, "size": size, "build_seed": 1 + (idx // 200) % 3, "case_index": idx, "operators": desc}
